@@ -155,6 +155,7 @@ structure MonState where
   stream : Bytes := []
   parts : Option Parts := none                   -- the decomposition claimed for the stream, once verified (`Parts.ok`)
   ref : Option (List Bytes × String) := none      -- the first reading of this stream (frames, end class)
+  spec : Out := framesWhole stream                 -- what the whole-stream spec says (computed once per stream)
 
 /-- clauses violated by one observed reading (`frames`, `end_`) of the current stream.
     `viaLoop`: observed through `readLoop`, which only logs the error.  -/
@@ -166,7 +167,7 @@ def monRead (st : MonState) (opName : String) (viaLoop : Bool) (frames : List By
       | .err _ => "unexplained"
     ["c09_framer_" ++ end_ ++ "{cause=" ++ cause ++ "}"]
   else
-    let spec := framesWhole st.stream
+    let spec := st.spec
     let c1 := if frames ≠ spec.frames then ["c12_frames_differ_from_whole_stream_spec{op=" ++ opName ++ "}"]
               else if ¬ viaLoop ∧ end_ ≠ endClass spec.end_ then ["c12_end_differs_from_whole_stream_spec{op=" ++ opName ++ "}"]
               else []
